@@ -321,9 +321,16 @@ Lemma pages_items_cons {A} (items : list A) t ps :
   pages_items ((items, t) :: ps) = items ++ pages_items ps.
 Proof. reflexivity. Qed.
 
+Lemma skipn_add {A} (l : list A) : forall k s, skipn (k + s) l = skipn s (skipn k l).
+Proof.
+  induction l as [|x l IH]; intros k s.
+  - rewrite !skipn_nil. reflexivity.
+  - destruct k as [|k]; [reflexivity|]. simpl. apply IH.
+Qed.
+
 Lemma firstn_skipn_add {A} (l : list A) k s : firstn s (skipn k l) ++ skipn (k + s) l = skipn k l.
 Proof.
-  rewrite Nat.add_comm, <- skipn_skipn. apply firstn_skipn.
+  rewrite skipn_add. apply firstn_skipn.
 Qed.
 
 Section FollowGeneric.
